@@ -170,6 +170,15 @@ def U1_defined_attributes(rep, flow, modules):
                 for st in k.node.body:
                     if isinstance(st, ast.AnnAssign) and isinstance(st.target, ast.Name):
                         defined.add(st.target.id)
+                    if isinstance(st, (ast.FunctionDef, ast.AsyncFunctionDef, ast.ClassDef)):
+                        defined.add(st.name)
+                        continue
+                    # any other name bound in the class body (tuple targets, loops, imports, with ... as)
+                    for x in ast.walk(st):
+                        if isinstance(x, ast.Name) and isinstance(x.ctx, ast.Store):
+                            defined.add(x.id)
+                        elif isinstance(x, ast.alias):
+                            defined.add((x.asname or x.name).split(".")[0])
                 for n in ast.walk(k.node):
                     if isinstance(n, ast.Attribute) and isinstance(n.ctx, (ast.Store, ast.Del)) and isinstance(n.value, ast.Name) and n.value.id in ("self", "result", "new", "obj", "other", "copy_", "clone"):
                         defined.add(n.attr)
